@@ -334,6 +334,18 @@ theorem raise_one_exact (fs : Bool) (fuel : Nat) (m m' : Map) (e : Int) (x1 y1 x
   intro k
   rw [setElevation_raise_one fs fuel m m' e x1 y1 x2 y2 hwf hx hx2 hy hy2 hns hm h, fill_spec]
 
+/-- **lower_one_exact_gen**: `lower_one_exact` for every start map whose elevations *outside* the rectangle lie in
+`[e, e + 1]` - whatever elevations the rectangle's own tiles had -/
+theorem lower_one_exact_gen (fs : Bool) (fuel : Nat) (m m' : Map) (e : Int) (x1 y1 x2 y2 : Nat) (hwf : WF m)
+    (hx : x1 ≤ x2) (hx2 : x2 < m.size) (hy : y1 ≤ y2) (hy2 : y2 < m.size) (hns : ¬ (x1 = x2 ∧ y1 = y2))
+    (hm : ∀ (k : Nat) (t : Tile), m.tiles[k]? = some t → k ∉ (rectRows m.size x1 y1 x2 y2).flatten →
+      e ≤ t.elevation ∧ t.elevation ≤ e + 1)
+    (h : setElevation fs fuel m e x1 y1 (some (x2 : Int)) (some (y2 : Int)) = .ok m') :
+    ∀ k : Nat, m'.tiles[k]? = if k ∈ (rectRows m.size x1 y1 x2 y2).flatten
+      then (m.tiles[k]?).map (fun t => t.withElev e) else m.tiles[k]? := by
+  intro k
+  rw [setElevation_lower_one_gen fs fuel m m' e x1 y1 x2 y2 hwf hx hx2 hy hy2 hns hm h, fill_spec]
+
 /-- **raise_one_exact_gen**: `raise_one_exact` for every start map that is at `e - 1` everywhere *outside* the
 rectangle - whatever elevations the rectangle's own tiles had (a hill or a pit being levelled) -/
 theorem raise_one_exact_gen (fs : Bool) (fuel : Nat) (m m' : Map) (e : Int) (x1 y1 x2 y2 : Nat) (hwf : WF m)
